@@ -253,4 +253,117 @@ theorem C28_full_of_wrapsAll (cfg : Cfg) (hc : cfg.covers = true) (hw : cfg.wrap
   intro v hv ops
   exact (C28_persist cfg hc _ (C28_load_wrapped cfg v hv) ops (fun op _ => C28_guard_wrapsAll cfg hw op)).1
 
+/-! ### … and only for those: a witness for every way of leaving a stored container unwrapped -/
+
+/-- the witnesses start from the document `[[], {}]` -/
+def v0 : T := .node .list false [("", .node .list false []), ("", .node .dict false [])]
+/-- the argument `{"": []}` -/
+def elemE : T := .node .dict false [("", .node .list false [])]
+def one : T := .atom (.num 1)
+
+/-- `x = obj.data[0]; x.extend(<iterable of kind k containing {"": []}>); flush(); obj.data[0][0][""].append(1); commit()` -/
+def witnessL (m : IterKind → List T → LMut) (k : IterKind) : List Op :=
+  [.lmut [.idx 0] (m k [elemE]), .flush, .lmut [.idx 0, .idx 0, .key ""] (.append one)]
+/-- `obj.data[1].update(<pairs of kind k: ("", {"": []})>); flush(); obj.data[1][""][""].append(1); commit()` -/
+def witnessD (m : IterKind → Items → DMut) (k : IterKind) : List Op :=
+  [.dmut [.idx 1] (m k [("", elemE)]), .flush, .lmut [.idx 1, .key "", .key ""] (.append one)]
+/-- `obj.data[0].append(([],)); flush(); obj.data[0][0][0].append(1); commit()` -/
+def witnessT : List Op :=
+  [.lmut [.idx 0] (.append (.node .tup false [("", .node .list false [])])), .flush, .lmut [.idx 0, .idx 0, .idx 0] (.append one)]
+
+theorem C28_lost_extend (cfg : Cfg) (hc : cfg.covers = true) (k : IterKind) (hu : cfg.wraps .extend k = false) : ¬ Full cfg := by
+  intro hF
+  have h := hF v0 (by decide) (witnessL .extend k)
+  have h1 : LM.extend ∈ cfg.listOv := by simpa using Cfg.covers_list hc .extend
+  have h2 : LM.append ∈ cfg.listOv := by simpa using Cfg.covers_list hc .append
+  simp [witnessL, run, step, St.load, v0, elemE, one, make, makeL, modAt, locate, normIdx, applyL, lEffect, LMut.prep, LMut.meth, makeVals,
+    doFlush, ser, serL, Kind.ser, h1, h2, hu, li, List.findIdx?_cons] at h
+
+theorem C28_lost_iadd (cfg : Cfg) (hc : cfg.covers = true) (k : IterKind) (hu : cfg.wraps .iadd k = false) : ¬ Full cfg := by
+  intro hF
+  have h := hF v0 (by decide) (witnessL .iadd k)
+  have h1 : LM.iadd ∈ cfg.listOv := by simpa using Cfg.covers_list hc .iadd
+  have h2 : LM.append ∈ cfg.listOv := by simpa using Cfg.covers_list hc .append
+  simp [witnessL, run, step, St.load, v0, elemE, one, make, makeL, modAt, locate, normIdx, applyL, lEffect, LMut.prep, LMut.meth, makeVals,
+    doFlush, ser, serL, Kind.ser, h1, h2, hu, li, List.findIdx?_cons] at h
+
+theorem C28_lost_setslice (cfg : Cfg) (hc : cfg.covers = true) (k : IterKind) (hu : cfg.wraps .setslice k = false) : ¬ Full cfg := by
+  intro hF
+  have h := hF v0 (by decide) (witnessL (.setslice none none) k)
+  have h1 : LM.setitem ∈ cfg.listOv := by simpa using Cfg.covers_list hc .setitem
+  have h2 : LM.append ∈ cfg.listOv := by simpa using Cfg.covers_list hc .append
+  simp [witnessL, run, step, St.load, v0, elemE, one, make, makeL, modAt, locate, normIdx, applyL, lEffect, LMut.prep, LMut.meth, makeVals,
+    sliceBounds, doFlush, ser, serL, Kind.ser, h1, h2, hu, li, List.findIdx?_cons] at h
+
+theorem C28_lost_update (cfg : Cfg) (hc : cfg.covers = true) (k : IterKind) (hu : cfg.wraps .update k = false) : ¬ Full cfg := by
+  intro hF
+  have h := hF v0 (by decide) (witnessD (fun k ps => .update k ps []) k)
+  have h1 : DM.update ∈ cfg.dictOv := by simpa using Cfg.covers_dict hc .update
+  have h2 : LM.append ∈ cfg.listOv := by simpa using Cfg.covers_list hc .append
+  simp [witnessD, run, step, St.load, v0, elemE, one, make, makeL, modAt, locate, normIdx, applyL, applyD, lEffect, dEffect, dSetAll, dSet,
+    LMut.meth, DMut.prep, DMut.meth, makePairs, doFlush, ser, serL, Kind.ser, h1, h2, hu, li, List.findIdx?_cons] at h
+
+theorem C28_lost_ior (cfg : Cfg) (hc : cfg.covers = true) (k : IterKind) (hu : cfg.wraps .ior k = false) : ¬ Full cfg := by
+  intro hF
+  have h := hF v0 (by decide) (witnessD .ior k)
+  have h1 : DM.ior ∈ cfg.dictOv := by simpa using Cfg.covers_dict hc .ior
+  have h2 : LM.append ∈ cfg.listOv := by simpa using Cfg.covers_list hc .append
+  simp [witnessD, run, step, St.load, v0, elemE, one, make, makeL, modAt, locate, normIdx, applyL, applyD, lEffect, dEffect, dSetAll, dSet,
+    LMut.meth, DMut.prep, DMut.meth, makePairs, doFlush, ser, serL, Kind.ser, h1, h2, hu, li, List.findIdx?_cons] at h
+
+theorem C28_lost_tuple (cfg : Cfg) (hc : cfg.covers = true) (hu : cfg.makeTuple = false) : ¬ Full cfg := by
+  intro hF
+  have h := hF v0 (by decide) witnessT
+  have h2 : LM.append ∈ cfg.listOv := by simpa using Cfg.covers_list hc .append
+  have hm : cfg.tupleMode = .leave := by simpa [Cfg.makeTuple] using hu
+  simp [witnessT, run, step, St.load, v0, one, make, makeL, modAt, locate, normIdx, applyL, lEffect, LMut.prep, LMut.meth,
+    doFlush, ser, serL, Kind.ser, h2, hm, li] at h
+
+/-- `C28_full_iff`: for a table that covers the mutators, the full statement (every change made in place, through any
+    operation sequence with ARBITRARY arguments, is in the database after the commit) holds if and only if `make` wraps the
+    containers inside tuples and every iterable argument's elements are wrapped.  `table.wrapsAll` is evaluated on the table
+    generated from the current source; the engine replays the witnesses on the real code. -/
+theorem C28_full_iff (cfg : Cfg) (hc : cfg.covers = true) : Full cfg ↔ cfg.wrapsAll = true := by
+  constructor
+  · intro hF
+    cases ht : cfg.makeTuple with
+    | false => exact absurd hF (C28_lost_tuple cfg hc ht)
+    | true =>
+      cases hl : cfg.iterUnwrapped with
+      | nil => simp [Cfg.wrapsAll, ht, hl]
+      | cons mk rest =>
+        obtain ⟨m, k⟩ := mk
+        have hu : cfg.wraps m k = false := by simp [Cfg.wraps, hl]
+        cases m with
+        | extend => exact absurd hF (C28_lost_extend cfg hc k hu)
+        | iadd => exact absurd hF (C28_lost_iadd cfg hc k hu)
+        | setslice => exact absurd hF (C28_lost_setslice cfg hc k hu)
+        | update => exact absurd hF (C28_lost_update cfg hc k hu)
+        | ior => exact absurd hF (C28_lost_ior cfg hc k hu)
+  · exact C28_full_of_wrapsAll cfg hc
+
+/-! ### the hypotheses are satisfiable, the guard is not vacuous -/
+
+/-- the table of the Tracked classes before iterables and tuples were wrapped (for the examples only) -/
+def cfgUnwrapped : Cfg := { listOv := LM.all, dictOv := DM.all, arrOv := LM.all, tupleMode := .leave,
+  iterUnwrapped := [(.extend, .tuple), (.extend, .gen), (.ior, .list)], notifyOnError := false }
+
+example : cfgUnwrapped.covers = true ∧ cfgUnwrapped.wrapsAll = false := by decide
+example : Inv (St.load table v0) := C28_load_wrapped table v0 (by decide)
+-- an ordinary nested JSON argument at depth 2 meets the guard, for the table of the current source
+example : jsonOK table (.lmut [.idx 0, .idx 1] (.append (.node .dict false [("", .node .list false [.mk "" one])]))) = true := by decide
+example : jsonOK cfgUnwrapped (.dmut [.idx 1] (.update .dict [("", elemE)] [("", elemE)])) = true := by decide
+-- the guard is not vacuous: a tuple argument holding a container does not meet it when tuples are not wrapped …
+example : Op.argsW cfgUnwrapped (.lmut [.idx 0] (.extend .tuple [elemE])) = false := by decide
+example : Op.argsW cfgUnwrapped (.lmut [.idx 0] (.append (.node .tup false [("", .node .list false [])]))) = false := by decide
+-- … and the same arguments in a list do
+example : Op.argsW cfgUnwrapped (.lmut [.idx 0] (.extend .list [elemE])) = true := by decide
+-- a change at depth 3 through `witnessL` with a LIST argument is written (dirty bit set, then cleared by the flush)
+example : (run cfgUnwrapped (witnessL .extend .list) (St.load cfgUnwrapped v0)).dirty = true := by decide
+example : (run cfgUnwrapped (witnessL .extend .tuple) (St.load cfgUnwrapped v0)).dirty = false := by decide
+example : allW (run cfgUnwrapped (witnessL .extend .tuple) (St.load cfgUnwrapped v0)).doc = false := by decide
+
+/-- the verdict for the current source, whichever way the generated table says -/
+theorem C28_current : Full table ↔ table.wrapsAll = true := C28_full_iff table C28_cover_current
+
 end PonyVerif.Props.C28
